@@ -14,7 +14,7 @@ HOW = ("tools/confirm_seeded.sh: scratch worktree of /repo HEAD, demo/run.sh on 
        "git apply patch.diff, go test ./... , demo/run.sh again")
 
 rows = {}
-for line in open(os.path.join(ROOT, "RESULTS.tsv")):
+for line in open(os.path.join(ROOT, "RESULTS.tsv"), errors="replace"):
     f = line.rstrip("\n").split("\t")
     if len(f) >= 5:
         rows[f[0]] = f
